@@ -15,6 +15,7 @@ type NumV struct {
 	C   *big.Int // concrete value (signed), nil if symbolic
 	T   *Term    // symbolic value (Int sort)
 	Ann int      // announced length in bits (saferith); for symbolic values an upper bound chosen at creation
+	B   []*Term  // source bytes when the value was read from (symbolic) big-endian bytes
 }
 
 func (*NumV) ModelName() string { return "num" }
@@ -129,7 +130,9 @@ func (in *Interp) natFromBytes(bs []*Term, name string) *NumV {
 		}
 		t = Add(t, Mul(bi, IntConst(new(big.Int).Lsh(big.NewInt(1), sh))))
 	}
-	return symNum(t, 8*len(bs))
+	r := symNum(t, 8*len(bs))
+	r.B = append([]*Term{}, bs...)
+	return r
 }
 
 func (in *Interp) numBytes(n *NumV, length int) []*Term {
